@@ -147,7 +147,7 @@ def run(tier: str, seed: int) -> int:
                          "executed on a real LinearLateral.")
     quick = tier == "quick"
     full = geom_consts(lin=1 if quick else 2)
-    mc_geom = geom_consts(lin=1, hw=(1, 2, 3, 4)) if quick else full
+    mc_geom = geom_consts(lin=1, hw=(1, 2, 3, 4), cf=(2,)) if quick else full
     asym = geom_consts(kinds=("conv",), h=(3, 5), w=(2, 4), cf=(1, 2), k=(1, 2, 3), s=(1, 2), p=(0, 1), d=(1, 2),
                        asym=True)
     lat = [("N2", dict(N=2, Vals={1, 2}, InitW="tok", InitD="ones", MaxDepth=5 if quick else 6)),
@@ -161,10 +161,10 @@ def run(tier: str, seed: int) -> int:
     fut_lat = [(n, pool.submit(_mc, "LateralMaskMC", c, LAT_INVS, ("Bounded",), 2)) for n, c in lat]
 
     # ---- A: one implementation test per emitted geometry
-    mod = 15 if quick else 1
+    mod = 18 if quick else 1
     recs = emit_geometries(chk, "symmetric", dict(full, EmitMod=mod, EmitRem=seed % mod))
     replay_geometries(chk, recs, rng, "symmetric")
-    amod = 40 if quick else 4
+    amod = 52 if quick else 4
     arecs = emit_geometries(chk, "asymmetric", dict(asym, EmitMod=amod, EmitRem=seed % amod))
     replay_geometries(chk, arecs, rng, "asymmetric")
     convs = [r for r in recs + arecs if r["geom"]["kind"] == "conv"]
@@ -179,7 +179,7 @@ def run(tier: str, seed: int) -> int:
     for name, consts in lat:
         g = lateral_graph(chk, name, consts)
         first = first or (g, consts)
-        budget = 1500 if quick else 40000
+        budget = 900 if quick else 40000
         replay_lateral(chk, g, consts, rng, budget)
         if consts["N"] % 2 == 0:
             replay_lateral(chk, g, consts, rng, budget // 2, shape2=True)
